@@ -310,3 +310,45 @@ def vb_to_font(vb, asc, desc, width, user=aff.I):
     dx = (adv - s * w) / 2
     m = (s, 0, 0, -s, dx - x * s, asc + y * s)
     return aff.mul(user, m), adv
+
+
+def raw_svg(g, w_attr=64):
+    """The same glyph printed as a *raw* (non-picosvg) document: width/height and
+    enable-background on the root, the first solid top-level shape inside a translated
+    <g>, the last solid top-level shape through <defs>+<use x y>. The picture is unchanged
+    (only translations of solid shapes are involved), so the scene model stays the reference."""
+    x, y, w, h = g.vb
+    defs = []
+    seen = set()
+    for n in g.nodes:
+        for d in n.defs():
+            if d not in seen:
+                seen.add(d)
+                defs.append(d)
+    solid_idx = [i for i, n in enumerate(g.nodes) if isinstance(n, Shape) and n.paint.kind == "solid"]
+    body = []
+    for i, n in enumerate(g.nodes):
+        if solid_idx and i == solid_idx[0]:
+            dx, dy = 3.0, -2.0
+            d = place(n.d, aff.tr(-dx, -dy), nd=4)
+            s = Shape(d, n.paint, n.opacity)
+            body.append(f'<g transform="translate({_g(dx)} {_g(dy)})">{s.svg()}</g>')
+        elif len(solid_idx) > 1 and i == solid_idx[-1]:
+            dx, dy = -4.0, 5.0
+            d = place(n.d, aff.tr(-dx, -dy), nd=4)
+            defs.append(f'<path id="rawp{i}" d="{d}"/>')
+            a = f'<use xlink:href="#rawp{i}" x="{_g(dx)}" y="{_g(dy)}"'
+            f = n.paint.attr()
+            if f != "black":
+                a += f' fill="{f}"'
+            if n.opacity != 1:
+                a += f' opacity="{n.opacity}"'
+            body.append(a + "/>")
+        else:
+            body.append(n.svg())
+    return (
+        '<svg xmlns="http://www.w3.org/2000/svg" xmlns:xlink="http://www.w3.org/1999/xlink" '
+        f'viewBox="{_g(x)} {_g(y)} {_g(w)} {_g(h)}" width="{w_attr}" height="{w_attr}" '
+        f'enable-background="new 0 0 {_g(w)} {_g(h)}">'
+        f'<defs>{"".join(defs)}</defs>' + "".join(body) + "</svg>"
+    )
